@@ -14,7 +14,7 @@ MANIFEST = {
             "every reply with an acceptable header and frag_len = size, and every trailing stream content, exactly the reply's bytes are reassembled in at most len(reply) reads; "
             "if the stream ends after k < len(reply) bytes (k = 0 included) the result is EOFError after at most k+1 reads (sync) / IncompleteReadError (async). "
             "Tie to the code: differential runs of the real clients over a scripted socket / a real asyncio.StreamReader fed chunk by chunk (all partitions into <= 3 chunks at every offset, EOF at every offset).",
-    "note": "The model of the loops is hand-written (tie by correspondence). Assumes socket.recv/recv_into return 1..n bytes or 0 only at EOF, and StreamReader.readexactly returns exactly n bytes or raises IncompleteReadError; OS/asyncio delivery is not modelled.",
+    "note": "The model of the loops is hand-written; tie by correspondence plus regenerated kernels: the sync header loop written with the regenerated guard / requested size IS the model's read-exactly loop (C14_header_loop_is_model), the async sizes and the statement skeletons of both functions are regenerated (C14_kernels); the buffers are filled through memoryview aliases, which the whole-function flow semantics cannot express, so there is no flow tie for these two functions. Assumes socket.recv/recv_into return 1..n bytes or 0 only at EOF, and StreamReader.readexactly returns exactly n bytes or raises IncompleteReadError; OS/asyncio delivery is not modelled.",
     "technique": "Coq proof (induction on bytes still missing, any schedule) + exhaustive small-partition correspondence",
 }
 ASSUMPTIONS = [
